@@ -1408,7 +1408,7 @@ class URL:
                 # and relativizing ".."
                 # parts[0] is / for absolute urls,
                 # this join will add a double slash there
-                path = "/".join([*self.parts[:-1], ""]) + join_path
+                path = "/".join([*self.raw_parts[:-1], ""]) + join_path
                 # which has to be removed
                 if orig_path[0] == "/":
                     path = path[1:]
